@@ -229,6 +229,41 @@ def colour_batch(acc, batch):
                           msg=f"colour flag={flag} config no_color={conf} NO_COLOR={'set' if env_nc else 'unset'}: ANSI expected {want}, got {got}")
 
 
+# ------------------------------------------------------------------------------------------- shared workflow file
+
+
+def shared_batch(acc, batch):
+    """Two projects whose workflow.py is a symbolic link to one shared file kept elsewhere: configuration and the .gwf directory belong to
+    the project (where the link is), never to the directory of the shared file."""
+    for action, where in batch:
+        w = W.World(WF, files={"nested/dir/keep": (1, "k")}, conf=None)
+        with W.Session(w) as s:
+            shared = os.path.join(s.dir, "shared")
+            os.makedirs(shared, exist_ok=True)
+            os.replace(os.path.join(s.proj, "workflow.py"), os.path.join(shared, "workflow.py"))
+            os.symlink(os.path.join("..", "shared", "workflow.py"), os.path.join(s.proj, "workflow.py"))
+            cwd = os.path.join(s.proj, "nested", "dir") if where == "nested" else s.proj
+            args = {"set": ["config", "set", "a", "5"], "status": ["-b", "slurm", "status"], "run": ["-b", "slurm", "run"]}[action]
+            r = s.gwf(args, cwd=cwd)
+            g = s.gwf(["config", "get", "a"], cwd=cwd)
+            acc.extra["invocations"] += 2
+            in_shared = sorted(os.listdir(shared))
+            in_proj = sorted(os.listdir(s.proj))
+        case = dict(kind="shared", action=action, where=where)
+        problems = []
+        if r.exit_code != 0 or r.crashed():
+            problems.append(f"`gwf {' '.join(args)}` failed: {r.exc or r.err_summary()}")
+        if in_shared != ["workflow.py"]:
+            problems.append(f"written next to the shared workflow file: {in_shared}")
+        if action == "set" and (".gwfconf.json" not in in_proj or g.stdout.strip() != "5"):
+            problems.append(f"the project has {in_proj}; `config get a` printed {g.stdout.strip()!r}")
+        if action in ("status", "run") and ".gwf" not in in_proj:
+            problems.append(f"no .gwf directory in the project: {in_proj}")
+        acc.case(key=json.dumps(case), outcome=f"shared {action} ok={not problems}", sample=case)
+        if problems:
+            acc.violation(sig=dict(kind="shared", action=action), case=case, observed=problems, msg=f"workflow.py is a link to a shared file, `gwf {' '.join(args)}` from {where}: {problems}")
+
+
 # ------------------------------------------------------------------------------------------- namespaces
 
 NS_CONF = {
@@ -301,6 +336,7 @@ def run(ctx):
     bk = [None, "slurm", "sge", "lsf", "local"]
     ctx.pmap(me, "prec_batch", [("backend", f, c) for f in bk for c in bk] + [("verbose", f, c) for f in (None, "debug", "info", "warning") for c in (None, "debug", "info", "warning")], chunk=4)
     ctx.pmap(me, "colour_batch", [(f, c, e) for f in (None, "--no-color", "--use-color") for c in (None, True, False) for e in (False, True)], chunk=2)
+    ctx.pmap(me, "shared_batch", [(a, w_) for a in ("set", "status", "run") for w_ in ("root", "nested")], chunk=2)
     ctx.pmap(me, "ns_batch", [(b, "all") for b in ("slurm", "sge", "lsf", "local")] + [(b, k) for b in ("slurm", "sge", "lsf", "local") for k in NS_CONF if not k.startswith(f"backend.{b}.")], chunk=4)
     ctx.traces_validated = ctx.acc.extra["transitions"]
     ctx.rule = "conf: state = content of .gwfconf.json (reference map), every set/unset transition is three real invocations; prec/ns: one case per flag x config (x environment) combination"
@@ -328,6 +364,9 @@ def replay(case):
         a2 = Acc()
         conf_expand(a2, [(w, tr[:-1])], keys=[tr[-1][1]], values=[tr[-1][2]] if tr[-1][0] == "set" else ["x"], only_flags=case.get("flags", []))
         return [v for v in a2.violations if v["case"]["trace"][-1] == tr[-1]] or a2.violations[:1]
+    if k == "shared":
+        shared_batch(acc, [(case["action"], case["where"])])
+        return acc.violations
     if k == "prec":
         prec_batch(acc, [(case["what"], case["flag"], case["conf"])])
     elif k == "colour":
